@@ -731,20 +731,51 @@ class PoseInv(torch.nn.Module):
         return (self.pose @ inputs).Log().tensor()
 
 
+class Saturating(torch.nn.Module):
+    """residual atan(k x): from |k x| >> 1 the undamped step overshoots, so LM trials are rejected until the damping
+    accumulated over the trials of one step makes a trial short enough - a step that is accepted after rejections."""
+
+    def __init__(self, x0, k):
+        super().__init__()
+        self.x = torch.nn.Parameter(torch.tensor([x0], dtype=torch.float64))
+        self.k = k
+
+    def forward(self, inputs):
+        return torch.atan(self.k * self.x) + 0 * inputs
+
+
+class CountingSolver(torch.nn.Module):
+    """Counts the linear solves (= trials) of the current optimizer step at the client boundary."""
+
+    def __init__(self):
+        super().__init__()
+        self.inner, self.calls = pp.optim.solver.PINV(), 0
+
+    def forward(self, A, b):
+        self.calls += 1
+        return self.inner(A, b)
+
+
 def drive_optimize(ck, rng, n):
     monitor, entry = "driver.optimize", "optim.scheduler.StopOnPlateau.optimize"
     for i in range(n):
         steps, patience = int(rng.integers(1, 7)), int(rng.integers(1, 5))
         dec = float(rng.choice([1e-3, 1e3, 0.0, 1e-9]))
-        which = str(rng.choice(["LM-small-damping", "LM-large-damping", "GN"]))
+        which = str(rng.choice(["LM-small-damping", "LM-large-damping", "GN", "LM-rejections"]))
         regime = f"{which}/dec{dec}"
         inputs = lie.random_group("SE3", rng, 2, torch.float64)
         net = PoseInv(lie.random_group("SE3", rng, 2, torch.float64))
+        counter = CountingSolver()
         if which == "GN":
             opt = pp.optim.GN(net)
+        elif which == "LM-rejections":
+            net = Saturating(float(rng.uniform(2.0, 5.0)) * float(rng.choice([-1.0, 1.0])), float(rng.choice([1.0, 3.0])))
+            inputs = torch.zeros(1, dtype=torch.float64)
+            opt = pp.optim.LM(net, solver=counter, strategy=pp.optim.strategy.Constant(damping=float(rng.choice([0.3, 1.0]))),
+                              reject=int(rng.choice([1, 3, 16])))
         else:
             strat = pp.optim.strategy.Constant(damping=1e-6 if which == "LM-small-damping" else 1e2)
-            opt = pp.optim.LM(net, strategy=strat)
+            opt = pp.optim.LM(net, solver=counter, strategy=strat)
         sched = pp.optim.scheduler.StopOnPlateau(opt, steps=steps, patience=patience, decreasing=dec, verbose=bool(i % 2))
         ref = RefPlateau(steps, patience, dec)
         log = {"cont_before_call": [], "trace": [], "sched_steps": 0, "ref_stop_at": None, "ref_cause": (), "ambiguous": False}
@@ -754,6 +785,7 @@ def drive_optimize(ck, rng, n):
             log["cont_before_call"].append(cont_of(sched))
             if len(log["cont_before_call"]) > steps + 6:
                 raise RuntimeError("harness: runaway driver loop cut off")
+            counter.calls = 0
             out = orig_step(*a, **k)
             return out
 
@@ -762,6 +794,16 @@ def drive_optimize(ck, rng, n):
             log["sched_steps"] += 1
             last, cur = float(opt.last), float(opt.loss)
             rej = int(getattr(opt, "reject_count", 0))
+            if which != "GN":
+                # rejections of this step as observed from outside: every trial costs one solve and every trial but the last one was
+                # rejected (the last is kept: better, equal, or worse once the allowed rejections are used up)
+                seen_rej = max(0, counter.calls - 1)
+                if seen_rej > 0:
+                    ck.mark("driver.optimize/step-with-rejections" + ("-then-accepted" if cur <= last else "-exhausted"))
+                ck.check((rej > 0) == (seen_rej > 0), monitor, regime, "optim.LevenbergMarquardt.step",
+                         "reject_count_after_step_disagrees_with_the_trials_observed",
+                         {"reject_count": rej, "solves_in_this_step": counter.calls, "last": last, "loss": cur})
+                rej = seen_rej
             if abs((last - cur) - dec) <= 1e-9 * max(1.0, abs(last)) and dec != 0.0:
                 log["ambiguous"] = True
             if dec == 0.0 and 0 < abs(last - cur) <= 1e-300:
@@ -1029,6 +1071,7 @@ def _run(ck):
     for mon in ("tree.StopOnPlateau", "tree.ReduceToBason"):
         ck.require(f"{mon}/first-stop:budget", f"{mon}/first-stop:patience", f"{mon}/first-stop:budget+patience",
                    f"{mon}/verbose")
+    ck.require("driver.optimize/step-with-rejections-then-accepted")
     ck.require("driver.optimize/second-call-on-stopped-scheduler", "tree.StopOnPlateau/first-stop:rejected", "tree.ReduceToBason/first-stop:tol",
                "tree.StopOnPlateau/start64", "tree.StopOnPlateau/start0.015625", "tree.StopOnPlateau/start16384",
                "reset/after-plateau-steps", "reset/after-plateau-steps/negative-first-loss",
